@@ -16,6 +16,7 @@ from harness import C09, C03
 
 UTXO_CATALOGUE = (50000, 10 ** 6, 10 ** 8)            # band edges of the sqlite chooser and values inside bands
 PAY_CATALOGUE = (60000, 10 ** 8 - 20000, 15 * 10 ** 7)
+ACCUMULATING = ('sqlite', None, 'standard', 'prefer_confirmed', 'only_confirmed')        # strategies that add outputs up until the payment is covered
 STRATEGIES = ('sqlite', None, 'prefer_confirmed', 'only_confirmed', 'branch_and_bound', 'closest_match')
 
 
@@ -70,6 +71,7 @@ def spend(vm, n_utxo, strategies):
         db.db.conn.execute('update tx set is_verified=1')              # the headers stand-in verifies nothing; the chooser prefers verified
     fee = Output.pay_pubkey_hash(COIN, NULL_HASH32).get_fee(ledger)
     in_flight = []               # selections of builds not yet broadcast or abandoned
+    confirmed_now = bool(confirmed_at_first)
     held = set()
     n_builds = 2
     for b in range(n_builds):
@@ -95,8 +97,9 @@ def spend(vm, n_utxo, strategies):
                 return 'VIOLATION: the selection does not cover the payment'
             if sum(s.txo.amount for s in selection) < pay:
                 return 'VIOLATION: the selection does not cover the payment'
-        else:
-            usable = [t for t in free if ledger.coin_selection_strategy != 'only_confirmed' or confirmed_at_first or b > 0]
+        elif ledger.coin_selection_strategy in ACCUMULATING:
+            # (branch_and_bound and closest_match look for one exact / one single covering output and may legitimately find none)
+            usable = [t for t in free if ledger.coin_selection_strategy != 'only_confirmed' or confirmed_now]
             worth = sum(max(0, t.get_estimator(ledger).effective_amount) for t in usable)
             if worth >= pay + fee + 20000:
                 return 'VIOLATION: nothing selected although the free outputs cover the payment'
@@ -107,6 +110,7 @@ def spend(vm, n_utxo, strategies):
         if b == 0 and not confirmed_at_first and vm.pick('funding_confirms_between_the_builds', 2):
             # the server reports new heights: the sync code saves the funding transactions again while build 1 is in flight
             server.confirmed = n_utxo
+            confirmed_now = True
             run_updates()
             if reserved_rows(db) != held:
                 return 'VIOLATION: syncing a transaction again dropped the reservation of an output held by a build in flight'
